@@ -105,6 +105,34 @@ def check_translation(idx, run):
         ": Fortran integer division truncates toward zero, so "
         "equal(n/2*2, n) answers True although the two differ for every "
         "odd n", loc(mod, cls.node))
+    # SymPy symbols must stay assumption-free while `/` and MOD are handed
+    # over with their real-number meaning: with integer symbols SymPy applies
+    # identities (Mod(2*i+1, 2) -> 1, (2*i)/2 -> i) that Fortran's
+    # truncating arithmetic does not satisfy for negative values, turning
+    # "left unevaluated => not equal" into wrong "equal" verdicts.
+    ASSUME = {"integer", "positive", "negative", "nonnegative", "real",
+              "nonzero", "even", "odd", "rational", "finite"}
+    nsym = 0
+    for fn in cls.methods.values():
+        for call in ast.walk(fn):
+            if isinstance(call, ast.Call) and ast.unparse(
+                    call.func).split(".")[-1] in ("Symbol", "symbols",
+                                                  "Dummy", "Function"):
+                nsym += 1
+                kws = sorted(k.arg for k in call.keywords
+                             if k.arg in ASSUME or k.arg is None)
+                run.check(
+                    "C17.R1", not kws or handles_div,
+                    f"SymPyWriter.{fn.name}",
+                    f"assumption-free SymPy symbol ({ast.unparse(call.func)}"
+                    f"({ast.unparse(call.args[0]) if call.args else ''}))",
+                    f"a SymPy symbol is created with the assumptions {kws} "
+                    f"while integer division and MOD are still exported "
+                    f"with their real-number meaning: SymPy then folds "
+                    f"Mod(2*i+1, 2) to 1 although Fortran's MOD(-1, 2) is "
+                    f"-1, so equal(mod(2*i+1,2), 1) answers True",
+                    loc(mod, call))
+    run.floor("SymPy symbol creations", nsym, 2)
     # unknown intrinsics stay opaque: the intrinsic handler renames only
     # names in the table and otherwise falls back to the generic call
     ic = cls.methods.get("intrinsiccall_node")
